@@ -5,7 +5,7 @@ From mathcomp Require Import all_ssreflect all_algebra.
 From PV Require Import Spec.LibSpecsMx Spec.Gaussian Spec.ExpSeries Gen.Kalman.
 Set Implicit Arguments.
 Unset Strict Implicit.
-Import GRing.Theory.
+Import GRing.Theory Num.Theory.
 Local Open Scope ring_scope.
 
 (* ------------------------------------------------------------------ *)
@@ -349,3 +349,391 @@ Corollary partition_independent P t0 ts u0 us :
 Proof. by case: composition => _ _ _ part eq_sum; rewrite !part eq_sum. Qed.
 
 End CompositionGen.
+
+(* ------------------------------------------------------------------ *)
+(** * Calculus of formal power series with matrix coefficients:
+      Cauchy product, formal derivative, Leibniz rule, uniqueness of the
+      solution of a first-order recurrence.  Characteristic 0 is needed
+      ([numFieldType]): k! must be invertible. *)
+Section CauchyAlgebra.
+Variable F : fieldType.
+Variable n : nat.
+Implicit Types (a b u v : nat -> 'M[F]_n) (C : 'M[F]_n).
+
+Lemma eq_cauchy a a' b b' : a =1 a' -> b =1 b' -> cauchy a b =1 cauchy a' b'.
+Proof. by move=> ea eb d; apply: eq_bigr => i _; rewrite ea eb. Qed.
+
+Lemma cauchy0 a b : cauchy a b 0 = a 0%N *m b 0%N.
+Proof. by rewrite /cauchy big_ord_recl big_ord0 addr0 subnn. Qed.
+
+Lemma cauchy_mulmxl C a b d : cauchy (fun k => C *m a k) b d = C *m cauchy a b d.
+Proof. by rewrite /cauchy mulmx_sumr; apply: eq_bigr => i _; rewrite mulmxA. Qed.
+
+Lemma cauchy_mulmxr a b C d : cauchy a (fun k => b k *m C) d = cauchy a b d *m C.
+Proof. by rewrite /cauchy mulmx_suml; apply: eq_bigr => i _; rewrite mulmxA. Qed.
+
+Lemma cauchy_mid a C b d :
+  cauchy (fun k => a k *m C) b d = cauchy a (fun k => C *m b k) d.
+Proof. by apply: eq_bigr => i _; rewrite mulmxA. Qed.
+
+Lemma cauchy_addl a a' b d :
+  cauchy (fun k => a k + a' k) b d = cauchy a b d + cauchy a' b d.
+Proof. by rewrite /cauchy -big_split; apply: eq_bigr => i _; rewrite mulmxDl. Qed.
+
+Lemma cauchy_oppl a b d : cauchy (fun k => - a k) b d = - cauchy a b d.
+Proof. by rewrite /cauchy -sumrN; apply: eq_bigr => i _; rewrite mulNmx. Qed.
+
+End CauchyAlgebra.
+
+(* ------------------------------------------------------------------ *)
+Section FormalSeries.
+Variable F : numFieldType.
+Variable n : nat.
+Implicit Types (a b u v : nat -> 'M[F]_n) (A B C : 'M[F]_n).
+
+(** formal sderivative of a coefficient sequence *)
+Definition sderiv a (k : nat) : 'M[F]_n := k.+1%:R *: a k.+1.
+
+Lemma eq_sderiv a a' : a =1 a' -> sderiv a =1 sderiv a'.
+Proof. by move=> e k; rewrite /sderiv e. Qed.
+
+(** Leibniz rule for the product of formal series *)
+Lemma cauchy_sderiv a b d :
+  sderiv (cauchy a b) d = cauchy (sderiv a) b d + cauchy a (sderiv b) d.
+Proof.
+rewrite /sderiv /cauchy scaler_sumr.
+have split_i (i : 'I_d.+2) :
+    d.+1%:R *: (a i *m b (d.+1 - i)%N) =
+    i%:R *: (a i *m b (d.+1 - i)%N) + (d.+1 - i)%:R *: (a i *m b (d.+1 - i)%N).
+  by rewrite -scalerDl -natrD subnKC // -ltnS.
+rewrite (eq_bigr _ (fun i _ => split_i i)) big_split /=; congr (_ + _).
+- rewrite big_ord_recl /= scale0r add0r; apply: eq_bigr => i _.
+  by rewrite /bump /= add1n subSS -scalemxAl.
+- rewrite big_ord_recr /= subnn scale0r addr0; apply: eq_bigr => i _.
+  by rewrite -scalemxAr subSn // -ltnS.
+Qed.
+
+(** a series is determined by a first-order recurrence and its constant term *)
+Lemma series_ode_unique (Phi : nat -> 'M[F]_n -> 'M[F]_n) u v :
+  (forall k, sderiv u k = Phi k (u k)) -> (forall k, sderiv v k = Phi k (v k)) ->
+  u 0%N = v 0%N -> forall k, u k = v k.
+Proof.
+move=> hu hv h0; elim=> [//|k IH].
+have nz : k.+1%:R != 0 :> F by rewrite pnatr_eq0.
+by apply: (scalerI nz); rewrite -/(sderiv u k) -/(sderiv v k) hu hv IH.
+Qed.
+
+Lemma fact_ratio k : k.+1%:R * (k.+1`!%:R)^-1 = (k`!%:R)^-1 :> F.
+Proof.
+have nz : k.+1%:R != 0 :> F by rewrite pnatr_eq0.
+by rewrite factS natrM invfM mulrA mulfV // mul1r.
+Qed.
+
+Lemma sderiv_exp_coeff A k : sderiv (exp_coeff A) k = A *m exp_coeff A k.
+Proof. by rewrite /sderiv /exp_coeff scalerA fact_ratio mx_powS -scalemxAr. Qed.
+
+Lemma sderiv_exp_coeff_r A k : sderiv (exp_coeff A) k = exp_coeff A k *m A.
+Proof. by rewrite /sderiv /exp_coeff scalerA fact_ratio mx_powSr -scalemxAl. Qed.
+
+Definition delta (k : nat) : 'M[F]_n := if k is 0 then 1%:M else 0.
+
+Lemma sderiv_delta k : sderiv delta k = 0.
+Proof. by rewrite /sderiv /= scaler0. Qed.
+
+(** exp(-B s) exp(B s) = 1 as formal series *)
+Lemma exp_coeff_inv B d : cauchy (exp_coeff (- B)) (exp_coeff B) d = delta d.
+Proof.
+apply: (@series_ode_unique (fun _ _ => 0)) d => [k|k|].
+- rewrite cauchy_sderiv (eq_cauchy (b:=exp_coeff B) (sderiv_exp_coeff_r (- B)) (fun=> erefl)).
+  rewrite (eq_cauchy (a:=exp_coeff (- B)) (fun=> erefl) (sderiv_exp_coeff B)).
+  rewrite (eq_cauchy (a':=fun k => - (exp_coeff (- B) k *m B)) (b':=exp_coeff B) _ (fun=> erefl)); last first.
+    by move=> j; rewrite mulmxN.
+  by rewrite cauchy_oppl cauchy_mid addNr.
+- exact: sderiv_delta.
+- by rewrite cauchy0 /exp_coeff fact0 invr1 !scale1r !mx_pow0 mulmx1.
+Qed.
+
+End FormalSeries.
+
+(* ------------------------------------------------------------------ *)
+(** * (2),(3) Van Loan's identity: the coefficients of E12(s) E11(s)^T are those
+      of the term-by-term integral of exp(A u) Q exp(A^T u).  Both sequences
+      solve the Lyapunov recurrence  X' = A X + X A^T + Q,  X(0) = 0. *)
+Section VanLoanCoeff.
+Variable F : numFieldType.
+Variable n : nat.
+Variables (A Q : 'M[F]_n).
+
+Local Notation a := (vl_E12 A Q).
+Local Notation bT := (fun k => (vl_E11 A k)^T).
+Local Notation qd := (vl_Qd_coeff A Q).
+Local Notation w := (integral_coeff A Q).
+
+(** right-hand side of the Lyapunov recurrence  X' = A X + X A^T + Q *)
+Definition lyap_rhs (k : nat) (X : 'M[F]_n) : 'M[F]_n :=
+  A *m X + X *m A^T + (if k is 0 then Q else 0).
+
+Lemma vl_E11_tr k : (vl_E11 A k)^T = exp_coeff A^T k.
+Proof. by rewrite /vl_E11 /exp_coeff linearZ /= mx_pow_tr. Qed.
+
+Lemma sderiv_vl_E12 k : sderiv a k = A *m a k + Q *m vl_E22 A k.
+Proof.
+rewrite /sderiv /vl_E12 /vl_E22 /exp_coeff scalerA fact_ratio ur_powS scalerDr.
+by rewrite -!scalemxAr.
+Qed.
+
+Lemma mulmx_delta k : Q *m delta F n k = if k is 0 then Q else 0.
+Proof. by case: k => [|k] /=; rewrite ?mulmx1 ?mulmx0. Qed.
+
+Lemma vl_Qd_ode k : sderiv qd k = lyap_rhs k (qd k).
+Proof.
+rewrite /vl_Qd_coeff cauchy_sderiv /lyap_rhs.
+rewrite (eq_cauchy (b:=bT) sderiv_vl_E12 vl_E11_tr).
+rewrite cauchy_addl !cauchy_mulmxl.
+rewrite [cauchy (vl_E22 A) _ k]exp_coeff_inv mulmx_delta.
+have -> : cauchy a (sderiv bT) k = cauchy a bT k *m A^T.
+  rewrite -cauchy_mulmxr; apply: eq_cauchy => // j.
+  by rewrite (eq_sderiv vl_E11_tr) sderiv_exp_coeff_r vl_E11_tr.
+rewrite (eq_cauchy (a:=a) (fun=> erefl) vl_E11_tr).
+by rewrite addrAC.
+Qed.
+End VanLoanCoeff.
+
+Section VanLoanIntegral.
+Variable F : numFieldType.
+Variable n : nat.
+Variables (A Q : 'M[F]_n).
+
+Local Notation qd := (vl_Qd_coeff A Q).
+Local Notation w := (integral_coeff A Q).
+Local Notation W := (integrand_coeff A Q).
+
+(** the integrand exp(A s) Q exp(A^T s) is a product of formal series *)
+Lemma integrand_cauchy d :
+  W d = cauchy (exp_coeff A) (fun k => Q *m exp_coeff A^T k) d.
+Proof.
+apply: eq_bigr => i _.
+by rewrite /exp_coeff -scalemxAr -scalemxAl -scalemxAr scalerA mulmxA natrM invfM.
+Qed.
+
+Lemma sderiv_integrand d : sderiv W d = A *m W d + W d *m A^T.
+Proof.
+rewrite (eq_sderiv integrand_cauchy) cauchy_sderiv !integrand_cauchy.
+rewrite (eq_cauchy (sderiv_exp_coeff A) (fun=> erefl)) cauchy_mulmxl; congr (_ + _).
+rewrite -cauchy_mulmxr; apply: eq_cauchy => // k.
+by rewrite /sderiv scalemxAr -/(sderiv _ k) sderiv_exp_coeff_r mulmxA.
+Qed.
+
+Lemma sderiv_integral k : sderiv w k = W k.
+Proof.
+have nz : k.+1%:R != 0 :> F by rewrite pnatr_eq0.
+by rewrite /sderiv /= scalerA mulfV // scale1r.
+Qed.
+
+Lemma integral_ode k : sderiv w k = lyap_rhs A Q k (w k).
+Proof.
+rewrite sderiv_integral /lyap_rhs; case: k => [|k].
+  rewrite /= mulmx0 mul0mx !add0r integrand_cauchy cauchy0.
+  by rewrite /exp_coeff fact0 invr1 !scale1r !mx_pow0 mulmx1 mul1mx.
+have nz : k.+1%:R != 0 :> F by rewrite pnatr_eq0.
+rewrite addr0 /= -scalemxAr -scalemxAl -scalerDr -sderiv_integrand.
+by rewrite /sderiv scalerA mulVf // scale1r.
+Qed.
+
+(** (2) Van Loan's identity, coefficient by coefficient *)
+Theorem van_loan_coeff d : qd d = w d.
+Proof.
+apply: (series_ode_unique (Phi:=lyap_rhs A Q)) d.
+- exact: vl_Qd_ode.
+- exact: integral_ode.
+- by rewrite /vl_Qd_coeff cauchy0 /vl_E12 ur_pow0 scaler0 mul0mx.
+Qed.
+
+(** (3) symmetry *)
+Theorem integral_coeff_sym d : Q^T = Q -> (w d)^T = w d.
+Proof.
+move=> sQ; apply: (series_ode_unique (Phi:=lyap_rhs A Q) (u:=fun k => (w k)^T)) d.
+- move=> k; rewrite /sderiv -linearZ /= -/(sderiv w k) integral_ode /lyap_rhs.
+  rewrite !linearD /= !trmx_mul trmxK [X in X + _]addrC; congr (_ + _).
+  by case: k => [|k]; rewrite ?sQ ?trmx0.
+- exact: integral_ode.
+- by rewrite /= trmx0.
+Qed.
+
+Corollary vl_Qd_coeff_sym d : Q^T = Q -> (qd d)^T = qd d.
+Proof. by move=> sQ; rewrite van_loan_coeff integral_coeff_sym. Qed.
+
+End VanLoanIntegral.
+
+(* ------------------------------------------------------------------ *)
+(** * (4) The semigroup law and the other laws of the exponential, for the
+      formal series *)
+Section Semigroup.
+Variable F : numFieldType.
+Variable n : nat.
+Variable A : 'M[F]_n.
+
+Lemma exp_coeff_comm (c : F) k : A *m exp_coeff (c *: A) k = exp_coeff (c *: A) k *m A.
+Proof.
+by rewrite /exp_coeff mx_pow_scale -!scalemxAr -!scalemxAl -mx_powS mx_powSr.
+Qed.
+
+(** exp((s+t)A) = exp(sA) exp(tA) as formal series *)
+Theorem exp_coeff_add (s t : F) d :
+  exp_coeff ((s + t) *: A) d = cauchy (exp_coeff (s *: A)) (exp_coeff (t *: A)) d.
+Proof.
+apply: (series_ode_unique (Phi := fun _ X => (s *: A) *m X + X *m (t *: A))) d.
+- move=> k; rewrite sderiv_exp_coeff [X in X *m _]scalerDl mulmxDl; congr (_ + _).
+  by rewrite -scalemxAl exp_coeff_comm scalemxAr.
+- move=> k; rewrite cauchy_sderiv (eq_cauchy (sderiv_exp_coeff _) (fun=> erefl)) cauchy_mulmxl.
+  by rewrite (eq_cauchy (fun=> erefl) (sderiv_exp_coeff_r _)) cauchy_mulmxr.
+- by rewrite cauchy0 /exp_coeff fact0 invr1 !scale1r !mx_pow0 mulmx1.
+Qed.
+
+End Semigroup.
+
+(** the three laws of [vl_exp_laws], coefficient by coefficient, for the formal
+    series  E(t) = sum_k t^k exp_coeff (vl_mx A Q) k *)
+Section FormalLaws.
+Variable F : numFieldType.
+Variable n : nat.
+Variables (A Q : 'M[F]_n).
+
+Lemma exp_coeff_block (t : F) k :
+  exp_coeff (t *: vl_mx A Q) k =
+  block_mx (t ^+ k *: vl_E11 A k) (t ^+ k *: vl_E12 A Q k) 0 (t ^+ k *: vl_E22 A k).
+Proof.
+rewrite /exp_coeff /vl_E11 /vl_E12 /vl_E22 /exp_coeff mx_pow_scale /vl_mx pow_block_gen.
+by rewrite !scalerA !scale_block_mx !scaler0 ![t ^+ k * _]mulrC.
+Qed.
+
+Theorem formal_exp_laws :
+  [/\ forall (s t : F) d,
+        exp_coeff ((s + t) *: vl_mx A Q) d =
+        cauchy (exp_coeff (s *: vl_mx A Q)) (exp_coeff (t *: vl_mx A Q)) d,
+      forall (t : F) k, dlsubmx (exp_coeff (t *: vl_mx A Q) k) = 0
+    & forall d, cauchy (vl_E22 A) (fun k => (vl_E11 A k)^T) d = delta F n d].
+Proof.
+split; first exact: exp_coeff_add.
+- by move=> t k; rewrite exp_coeff_block block_mxKdl.
+- by move=> d; rewrite (eq_cauchy (fun=> erefl) (vl_E11_tr A)) exp_coeff_inv.
+Qed.
+
+End FormalLaws.
+
+(* ------------------------------------------------------------------ *)
+(** * An exact instance: zero dynamics (random-walk states), where the series
+      terminates: expm := exp_upto 2 is the exact exponential. *)
+Section ZeroDynamics.
+Variable F : fieldType.
+Variable n : nat.
+Variable Q : 'M[F]_n.
+
+Lemma exp_upto2_vl0 (t : F) :
+  exp_upto 2 (t *: vl_mx 0 Q) = block_mx 1%:M (t *: Q) 0 1%:M.
+Proof.
+rewrite /vl_mx exp_upto_block /exp_upto !big_ord_recl !big_ord0 /= !addr0.
+rewrite /exp_coeff fact0 /= !mx_pow0 !mx_pow1 trmx0 oppr0 !scaler0 !addr0.
+rewrite /bump leqnn /= add0r !invr1 !scale1r ur_powS ur_pow0 mulmx0 add0r mx_pow0 mulmx1.
+by rewrite mul1r addn0 expr1.
+Qed.
+
+Theorem zero_dynamics_laws : vl_exp_laws (fun t : F => exp_upto 2 (t *: vl_mx 0 Q)).
+Proof.
+split=> [s t|t|t]; rewrite !exp_upto2_vl0.
+- rewrite mulmx_block !mulmx1 !mul1mx !mulmx0 !mul0mx !addr0 add0r.
+  by rewrite scalerDl addrC.
+- by rewrite block_mxKdl.
+- by rewrite block_mxKdr block_mxKul trmx1 mulmx1.
+Qed.
+
+Theorem zero_dynamics (dt : F) :
+  cpm_ret0 (@exp_upto F (n + n) 2) 0 Q dt = 1%:M /\
+  cpm_ret1 (@exp_upto F (n + n) 2) 0 Q dt = dt *: Q.
+Proof.
+by rewrite cpm_ret0_eq cpm_ret1_eq exp_upto2_vl0 block_mxKul block_mxKur trmx1 mulmx1.
+Qed.
+
+End ZeroDynamics.
+
+(* ------------------------------------------------------------------ *)
+(** * Tie between the truncated series the generated code computes with
+      [expm := exp_upto N] and the coefficient sequences above *)
+Section TruncatedProduct.
+Variable F : fieldType.
+Variable n : nat.
+Implicit Types (a b : nat -> 'M[F]_n) (h : nat -> 'M[F]_n).
+
+Lemma shift_sum N i h :
+  \sum_(d < N | (i <= d)%N) h (d - i)%N = \sum_(l < N | (i + l < N)%N) h l.
+Proof.
+transitivity (\sum_(0 <= l < N - i) h l).
+  rewrite (eq_bigl (fun d : 'I_N => xpredT d && (i <= d)%N)) //.
+  rewrite -(big_geq_mkord i N xpredT (fun d => h (d - i)%N)).
+  rewrite -{1}[i]add0n big_addn; apply: eq_bigr => l _.
+  by rewrite addnK.
+rewrite big_mkord (big_ord_widen _ h (leq_subr i N)).
+by apply: eq_bigl => l; rewrite ltn_subRL.
+Qed.
+
+(** product of two truncated series = truncated Cauchy product + terms of degree >= N *)
+Lemma trunc_prod N a b (t : F) :
+  (\sum_(k < N) t ^+ k *: a k) *m (\sum_(l < N) t ^+ l *: b l) =
+  \sum_(d < N) t ^+ d *: cauchy a b d +
+  \sum_(k < N) \sum_(l < N | (N <= k + l)%N) t ^+ (k + l) *: (a k *m b l).
+Proof.
+pose g (k l : nat) := t ^+ (k + l) *: (a k *m b l).
+have -> : (\sum_(k < N) t ^+ k *: a k) *m (\sum_(l < N) t ^+ l *: b l) =
+          \sum_(k < N) \sum_(l < N) g k l.
+  rewrite mulmx_suml; apply: eq_bigr => k _; rewrite mulmx_sumr; apply: eq_bigr => l _.
+  by rewrite /g -scalemxAl -scalemxAr scalerA exprD.
+have -> : \sum_(d < N) t ^+ d *: cauchy a b d = \sum_(k < N) \sum_(l < N | (k + l < N)%N) g k l.
+  transitivity (\sum_(d < N) \sum_(i < N | (i < d.+1)%N) g i (d - i)%N).
+    apply: eq_bigr => d _; rewrite /cauchy scaler_sumr.
+    rewrite (big_ord_widen N (fun i => t ^+ d *: (a i *m b (d - i)%N))) //.
+    by apply: eq_bigr => i le_id; rewrite /g subnKC.
+  rewrite (exchange_big_dep xpredT) //=; apply: eq_bigr => k _.
+  by rewrite -shift_sum.
+rewrite -big_split /=; apply: eq_bigr => k _.
+rewrite (bigID (fun l : 'I_N => (k + l < N)%N)) /=; congr (_ + _).
+by apply: eq_bigl => l; rewrite -leqNgt.
+Qed.
+
+End TruncatedProduct.
+
+(** the generated code with the N-term series: every coefficient of dt^d, d < N,
+    of the returned noise matrix is the coefficient of the integral *)
+Section GeneratedCoefficients.
+Variable F : numFieldType.
+Variable n : nat.
+Variables (A Q : 'M[F]_n).
+
+Lemma exp_upto_scale N (t : F) (B : 'M[F]_n) :
+  exp_upto N (t *: B) = \sum_(k < N) t ^+ k *: exp_coeff B k.
+Proof.
+by apply: eq_bigr => k _; rewrite /exp_coeff mx_pow_scale !scalerA mulrC.
+Qed.
+
+Lemma E12_upto_scale N (t : F) :
+  E12_upto A Q N t = \sum_(k < N) t ^+ k *: vl_E12 A Q k.
+Proof. by apply: eq_bigr => k _; rewrite /vl_E12 scalerA mulrC. Qed.
+
+Theorem cpm_ret0_coeff N (dt : F) :
+  cpm_ret0 (@exp_upto F (n + n) N) A Q dt = \sum_(k < N) dt ^+ k *: exp_coeff A k.
+Proof. by rewrite cpm_ret0_series exp_upto_scale. Qed.
+
+Theorem cpm_ret1_coeff N (dt : F) :
+  cpm_ret1 (@exp_upto F (n + n) N) A Q dt =
+  \sum_(d < N) dt ^+ d *: integral_coeff A Q d +
+  \sum_(k < N) \sum_(l < N | (N <= k + l)%N)
+     dt ^+ (k + l) *: (vl_E12 A Q k *m (vl_E11 A l)^T).
+Proof.
+rewrite cpm_ret1_series E12_upto_scale exp_upto_scale.
+have -> : (\sum_(k < N) dt ^+ k *: exp_coeff A k)^T =
+          \sum_(l < N) dt ^+ l *: (vl_E11 A l)^T.
+  by rewrite raddf_sum; apply: eq_bigr => l _; rewrite /= linearZ.
+rewrite (trunc_prod N (vl_E12 A Q) (fun l => (vl_E11 A l)^T)); congr (_ + _).
+by apply: eq_bigr => d _; rewrite -van_loan_coeff.
+Qed.
+
+End GeneratedCoefficients.
